@@ -1976,8 +1976,8 @@ fn parse_week_day_number(s: &[u8]) -> Result<(WeekDay, &[u8])> {
         ));
     }
 
-    let num = s[0] - b'0';
-    if (1..=7).contains(&num) {
+    if (b'1'..=b'7').contains(&s[0]) {
+        let num = s[0] - b'0';
         return Ok((WeekDay::from(num as usize), &s[1..]));
     }
 
